@@ -1,14 +1,19 @@
 """C12: regenerate the facts of every `Parallel(...)` call site of the anchored files (Sites.v).
 
 Fail closed: every occurrence of the name `Parallel` in a scanned file must be either the joblib
-import or a call site of the one shape understood here,
+import or the constructor call of a dispatch of the shape
 
-    <target> = Parallel(<keywords>)(delayed(<F>)(<args>) for <vars> in <iterable>)
+    <target> = [list|tuple|np.array(] Parallel(<keywords>)(<tasks>) [)]
+    <tasks>  = delayed(<F>)(<args>) for <vars> in <iterable> [if <filter>]
 
-anything else raises Unsupported (a broken tie).  Per site the following SYNTACTIC facts are
+where the pool object may go through one local name (`pool = Parallel(..)` ... `pool(<tasks>)`),
+the tasks may be a generator expression or a list comprehension, given in place, wrapped in
+list(..) / tuple(..), or bound to one local name assigned once; anything else raises Unsupported
+(a broken tie).  No fact is pinned by source text: strings / comments / layout do not matter.  Per site the following SYNTACTIC facts are
 emitted (Model.v `site`); C12/Bridge.v proves `forallb site_ok sites = true` against this file:
 
-  gen_form              the shape above: one generator, one `for`, no filter, tasks `delayed(F)(..)`
+  gen_form              the shape above: one `for` (a filter keeps the task order), tasks
+                        `delayed(F)(..)`
   kw_ok                 Parallel(...) has only n_jobs / verbose / pre_dispatch / backend / prefer
                         (in particular no `return_as=` that would deliver out of task order)
   bound_whole           the delivered list is bound by a plain assignment to a name or attribute and
@@ -31,7 +36,8 @@ emitted (Model.v `site`); C12/Bridge.v proves `forallb site_ok sites = true` aga
                         None: it is only handed on as the keyword `n_jobs=` of a call
                         (Parallel(n_jobs=..), a constructor), given to check_n_jobs(..), assigned,
                         or compared with ==, !=, is, is not - no `self.n_jobs > 1` style ordering
-                        comparison, arithmetic, or other call argument
+                        comparison, arithmetic, or other call argument; a local name all of whose
+                        bindings are `<name> = check_n_jobs(..)` is an int and may be used freely
 
 Limits (stated in TRUSTED): the facts are about F's own body, not about what F calls; `random_state`
 is assumed to hold an int seed.
@@ -276,6 +282,33 @@ def _order_destroyed(scope, is_target):
 NONE_SAFE_CMP = (ast.Eq, ast.NotEq, ast.Is, ast.IsNot)
 
 
+def _is_check_call(v):
+    return isinstance(v, ast.Call) and (
+        (isinstance(v.func, ast.Name) and v.func.id == "check_n_jobs")
+        or (isinstance(v.func, ast.Attribute) and v.func.attr == "check_n_jobs"))
+
+
+def _is_checked_local(name_node, par):
+    """a local name every binding of which (in its function) is `<name> = check_n_jobs(..)`"""
+    fn = name_node
+    while fn in par and not isinstance(fn, ast.FunctionDef):
+        fn = par[fn]
+    if not isinstance(fn, ast.FunctionDef):
+        return False
+    if name_node.id in {a.arg for a in fn.args.args + fn.args.kwonlyargs}:
+        return False
+    stores = [x for x in _walk_no_nested(fn) if isinstance(x, ast.Name) and x.id == name_node.id
+              and isinstance(x.ctx, ast.Store)]
+    if not stores:
+        return False
+    for x in stores:
+        a = par.get(x)
+        if not (isinstance(a, ast.Assign) and len(a.targets) == 1 and a.targets[0] is x
+                and _is_check_call(a.value)):
+            return False
+    return True
+
+
 def _njobs_none_ok(mod, par):
     """every Load of `n_jobs` / `<obj>.n_jobs` is None-safe (see module docstring)"""
     for n in ast.walk(mod):
@@ -284,6 +317,8 @@ def _njobs_none_ok(mod, par):
         if not is_nj or not isinstance(n.ctx, ast.Load):
             continue
         p = par.get(n)
+        if isinstance(n, ast.Name) and _is_checked_local(n, par):
+            continue                      # n_jobs = check_n_jobs(self.n_jobs): an int from here on
         if isinstance(p, ast.keyword) and p.arg == "n_jobs":
             continue                      # Parallel(n_jobs=..), SFA(n_jobs=..), super().__init__(..)
         if isinstance(p, ast.Call) and n in p.args and (
@@ -296,6 +331,53 @@ def _njobs_none_ok(mod, par):
             continue                      # n_jobs == 1 / is None: fine for None
         return False
     return True
+
+
+ORDER_KEEPING_WRAPPERS = {"list", "tuple", "np.array", "np.asarray", "numpy.array", "numpy.asarray"}
+
+
+def _assigned_once(fn, name):
+    """the single `name = <value>` of the function (None if there is none or several, or the name
+    is bound in another way: parameter, loop target, augmented assignment, ...)"""
+    vals = []
+    for n in _walk_no_nested(fn):
+        if isinstance(n, ast.Name) and n.id == name and isinstance(n.ctx, ast.Store):
+            vals.append(n)
+    params = {a.arg for a in fn.args.args + fn.args.kwonlyargs}
+    if name in params or len(vals) != 1:
+        return None
+    return vals[0]
+
+
+def _dotted(n):
+    if isinstance(n, ast.Name):
+        return n.id
+    if isinstance(n, ast.Attribute):
+        b = _dotted(n.value)
+        return b + "." + n.attr if b else None
+    return None
+
+
+def _resolve_tasks(e, fn, par, rel):
+    """the generator / list comprehension that produces the tasks handed to the pool: given in
+    place, wrapped in list(..) / tuple(..), or through a local name assigned exactly once"""
+    for _ in range(6):
+        if isinstance(e, (ast.GeneratorExp, ast.ListComp)):
+            return e
+        if isinstance(e, ast.Call) and _dotted(e.func) in ("list", "tuple") and len(e.args) == 1 \
+                and not e.keywords:
+            e = e.args[0]
+            continue
+        if isinstance(e, ast.Name):
+            st = _assigned_once(fn, e.id)
+            asg = par.get(st) if st is not None else None
+            if isinstance(asg, ast.Assign) and len(asg.targets) == 1 and asg.targets[0] is st:
+                e = asg.value
+                continue
+        break
+    raise Unsupported("%s:%d: the tasks handed to Parallel are not a generator / list comprehension "
+                      "`delayed(F)(..) for .. in ..` (in place or through one local name)"
+                      % (rel, getattr(e, "lineno", 0)))
 
 
 def _sites_of(rel, repo):
@@ -311,17 +393,14 @@ def _sites_of(rel, repo):
         raise Unsupported("%s: joblib.Parallel used through an attribute (line %d)"
                           % (rel, attr_uses[0].lineno))
     sites = []
+    dispatches = []          # (constructor call, dispatch call, enclosing defs, class)
     for u in uses:
         inner = par.get(u)
         if not (isinstance(inner, ast.Call) and inner.func is u):
-            raise Unsupported("%s:%d: `Parallel` used other than as Parallel(...)(...)"
+            raise Unsupported("%s:%d: `Parallel` used other than as a constructor call"
                               % (rel, u.lineno))
-        outer = par.get(inner)
-        if not (isinstance(outer, ast.Call) and outer.func is inner):
-            raise Unsupported("%s:%d: Parallel(...) object is not called in place" % (rel, u.lineno))
-        # enclosing defs / class
         enclosing, cls = [], None
-        n = outer
+        n = inner
         while n in par:
             n = par[n]
             if isinstance(n, ast.FunctionDef):
@@ -331,16 +410,39 @@ def _sites_of(rel, repo):
         if not enclosing:
             raise Unsupported("%s:%d: Parallel call outside a function" % (rel, u.lineno))
         fn = enclosing[-1]
+        outer = par.get(inner)
+        if isinstance(outer, ast.Call) and outer.func is inner:
+            dispatches.append((inner, outer, enclosing, cls))          # Parallel(..)(tasks)
+            continue
+        # pool = Parallel(..) ... pool(tasks): one local name, used only to dispatch
+        if isinstance(outer, ast.Assign) and outer.value is inner and len(outer.targets) == 1 \
+                and isinstance(outer.targets[0], ast.Name) \
+                and _assigned_once(fn, outer.targets[0].id) is outer.targets[0]:
+            pname = outer.targets[0].id
+            loads = [x for x in _walk_no_nested(fn) if isinstance(x, ast.Name) and x.id == pname
+                     and isinstance(x.ctx, ast.Load)]
+            if loads and all(isinstance(par.get(x), ast.Call) and par.get(x).func is x
+                             for x in loads):
+                for x in loads:
+                    dispatches.append((inner, par.get(x), enclosing, cls))
+                continue
+        raise Unsupported("%s:%d: the Parallel(...) object is neither called in place nor bound to "
+                          "one local name that is only called" % (rel, u.lineno))
+    for inner, outer, enclosing, cls in dispatches:
+        u = inner.func
+        fn = enclosing[-1]
         facts = {}
         # ---- shape
-        gen = outer.args[0] if len(outer.args) == 1 and not outer.keywords else None
-        ok_shape = (isinstance(gen, ast.GeneratorExp) and len(gen.generators) == 1
-                    and not gen.generators[0].ifs and not gen.generators[0].is_async
+        if len(outer.args) != 1 or outer.keywords:
+            raise Unsupported("%s:%d: the pool is not called with exactly one argument"
+                              % (rel, outer.lineno))
+        gen = _resolve_tasks(outer.args[0], fn, par, rel)
+        ok_shape = (len(gen.generators) == 1 and not gen.generators[0].is_async
                     and isinstance(gen.elt, ast.Call) and isinstance(gen.elt.func, ast.Call)
                     and isinstance(gen.elt.func.func, ast.Name) and gen.elt.func.func.id == "delayed"
                     and len(gen.elt.func.args) == 1 and not gen.elt.func.keywords)
         if not ok_shape:
-            raise Unsupported("%s:%d: Parallel call is not `Parallel(..)(delayed(F)(..) for .. in ..)`"
+            raise Unsupported("%s:%d: the tasks are not `delayed(F)(..) for .. in ..`"
                               % (rel, u.lineno))
         facts["gen_form"] = True
         F = gen.elt.func.args[0]
@@ -348,9 +450,13 @@ def _sites_of(rel, repo):
         facts["kw_ok"] = (len(inner.args) <= 1 and all(
             k.arg in PARALLEL_KW for k in inner.keywords))
         # ---- how the delivered list is bound
-        stmt = par.get(outer)
+        val = outer
+        stmt = par.get(val)
+        while isinstance(stmt, ast.Call) and _dotted(stmt.func) in ORDER_KEEPING_WRAPPERS \
+                and stmt.args and stmt.args[0] is val:
+            val, stmt = stmt, par.get(stmt)              # list(Parallel(..)(..)) keeps the order
         bound = False
-        if isinstance(stmt, ast.Assign) and stmt.value is outer and len(stmt.targets) == 1:
+        if isinstance(stmt, ast.Assign) and stmt.value is val and len(stmt.targets) == 1:
             t = stmt.targets[0]
             if isinstance(t, ast.Name):
                 name = t.id
@@ -392,6 +498,8 @@ def _sites_of(rel, repo):
                                                  or a.attr in ("random_state_", "_random_state")):
                 shared = True
         facts["no_shared_rng_arg"] = not shared
+        while stmt is not None and not isinstance(stmt, ast.stmt):
+            stmt = par.get(stmt)
         before = True
         for s in _walk_no_nested(fn):
             if isinstance(s, ast.Name) and isinstance(s.ctx, ast.Load) and s.id in rngs:
@@ -403,7 +511,8 @@ def _sites_of(rel, repo):
                                    ".".join(e.name for e in enclosing), _u(F))
         key = "%s:%s:%s" % (rel.replace("sktime/", "", 1), enclosing[-1].name,
                             _u(F).split(".")[-1])
-        sites.append((u.lineno, label, key, facts))
+        owner = "%s:%s" % (rel.replace("sktime/", "", 1), cls.name if cls else enclosing[0].name)
+        sites.append((u.lineno, label, key, facts, owner))
     # every textual occurrence must be accounted for: import lines + sites
     n_import = sum(1 for n in ast.walk(mod) if isinstance(n, ast.ImportFrom)
                    and any(a.name == "Parallel" for a in n.names))
@@ -411,9 +520,8 @@ def _sites_of(rel, repo):
                       and any(a.asname and a.name == "Parallel" for a in n.names))
     if n_import_as:
         raise Unsupported("%s: Parallel imported under another name" % rel)
-    if src.count("Parallel(") != len(sites):
-        raise Unsupported("%s: %d textual `Parallel(` but %d call sites understood"
-                          % (rel, src.count("Parallel("), len(sites)))
+    # every occurrence of the name is accounted for above (constructor calls only); strings and
+    # comments do not matter
     if sites and n_import != 1:
         raise Unsupported("%s: Parallel is not imported by `from joblib import Parallel`" % rel)
     return sorted(sites)
@@ -435,8 +543,9 @@ def extract(repo):
     for rel in files:
         if not os.path.exists(os.path.join(repo, rel)):
             raise Unsupported("anchored file missing: " + rel)
-        for lineno, label, key, facts in _sites_of(rel, repo):
-            out.append({"file": rel, "line": lineno, "label": label, "key": key, "facts": facts})
+        for lineno, label, key, facts, owner in _sites_of(rel, repo):
+            out.append({"file": rel, "line": lineno, "label": label, "key": key, "facts": facts,
+                        "owner": owner})
     return files, out
 
 
@@ -466,5 +575,9 @@ def translate(repo):
     lines.append("].\n")
     lines.append("Definition site_keys : list string := [")
     lines.append(";\n".join("  " + _cs(s["key"]) for s in sites))
+    lines.append("].\n")
+    lines.append("(* file:class that owns each site (invariant under renaming helpers / tasks) *)")
+    lines.append("Definition site_owners : list string := [")
+    lines.append(";\n".join("  " + _cs(s["owner"]) for s in sites))
     lines.append("].\n")
     return {"C12/Sites.v": "\n".join(lines)}
